@@ -49,8 +49,11 @@ Definition pre (ss : sstate) (o : op) (r : out) : sstate :=
       if ran r then mkSS (ss_maxr ss) ((s, id) :: ss_reg ss) (ss_ctr ss) (s :: ss_starts ss) (ss_live ss) (ss_ended ss)
                          (ss_ackstart ss) (ss_ackstop ss) (ss_dropstop ss) (ss_crashed ss)
       else ss
-  | Stop _ _ cin cout _ _ _ | InterimTick cin cout _ _ _ _ | GracefulStop cin cout _ _ _ _ =>
+  | Stop _ _ cin cout _ _ _ =>
       mkSS (ss_maxr ss) (ss_reg ss) ((cin, cout) :: ss_ctr ss) (ss_starts ss) (ss_live ss) (ss_ended ss)
+           (ss_ackstart ss) (ss_ackstop ss) (ss_dropstop ss) (ss_crashed ss)
+  | InterimTick cs _ _ _ _ | GracefulStop cs _ _ _ _ =>
+      mkSS (ss_maxr ss) (ss_reg ss) (map snd cs ++ ss_ctr ss) (ss_starts ss) (ss_live ss) (ss_ended ss)
            (ss_ackstart ss) (ss_ackstop ss) (ss_dropstop ss) (ss_crashed ss)
   | _ => ss
   end.
@@ -103,7 +106,7 @@ Definition final_ok (ss : sstate) (r : out) : bool := forallb (owed_ok ss r) (ss
 
 (* bookkeeping after the op's records *)
 Definition died (o : op) (r : out) : bool :=
-  (o_ret r =? R_CRASHED) || match o with GracefulStop _ _ _ _ _ _ => o_ret r =? R_OK | _ => false end.
+  (o_ret r =? R_CRASHED) || match o with GracefulStop _ _ _ _ _ => o_ret r =? R_OK | _ => false end.
 
 Definition post (ss : sstate) (o : op) (r : out) : sstate :=
   let ss1 :=
@@ -178,16 +181,16 @@ Definition ev7 (o : op) (a : aux) (e : wrec * bool) : bool * aux :=
   else
     let c := (join (w_in w), join (w_out w)) in
     let s := w_sid w in
-    let direct (cin cout : N) (fe : list N) := pair_eqb c (if memN s fe then last_of s (a_last a) else (cin, cout)) in
+    let direct (v : N * N) (fe : list N) := pair_eqb c (if memN s fe then last_of s (a_last a) else v) in
     let ok := match o with
-              | Stop _ _ cin cout fe _ _ | GracefulStop cin cout fe _ _ _ => direct cin cout fe
-              | InterimTick cin cout fe _ _ _ => direct cin cout fe
+              | Stop _ _ cin cout fe _ _ => direct (cin, cout) fe
+              | GracefulStop cs fe _ _ _ | InterimTick cs fe _ _ _ => direct (src cs s) fe
               | ProcessQueued _ _ | RetryTick _ _ _ => was_sent s (w_st w) c (a_sent a)
               | Restart _ _ _ => pair_eqb c (0, 0) || pair_eqb c (last_of s (a_last a))
               | _ => true
               end in
     let last' := match o with
-                 | InterimTick _ _ _ _ _ _ => if ack && (w_st w =? ST_INTERIM) then (s, c) :: a_last a else a_last a
+                 | InterimTick _ _ _ _ _ => if ack && (w_st w =? ST_INTERIM) then (s, c) :: a_last a else a_last a
                  | _ => a_last a
                  end in
     (ok, mkA last' ((s, w_st w, c) :: a_sent a)).
@@ -210,4 +213,11 @@ Definition accept7 (st : sstate * aux) (o : op) (r : out) : (sstate * aux) + N :
   | inr c => inr c
   | inl ss' => let '(ok, a') := run7 o (pre7 (snd st) o r) (o_ev r) in
                if ok then inl (ss', a') else inr 7
+  end.
+
+(* clause 7 along a whole trace *)
+Fixpoint holds7 (a : aux) (tr : list (op * out)) : bool :=
+  match tr with
+  | [] => true
+  | (o, r) :: tl => let '(ok, a') := run7 o (pre7 a o r) (o_ev r) in ok && holds7 a' tl
   end.
